@@ -885,6 +885,17 @@ func ruleMark(r *core.Reporter) {
 					}); !g {
 						ok, detail = false, "an early `return true` is not guarded by !HasWork()"
 					}
+					continue
+				}
+				// any other return that skips markCompleted: only for a non-seed, or when nothing has work
+				_, notSeed := ir.GuardedBy(cac, ir.Entry(cac), ret, false, func(a ir.Atom) bool {
+					return ir.BoolCallAtom(a, "(*"+pkgModels+".Item).IsSeed") != nil
+				})
+				_, noWork := ir.GuardedBy(cac, ir.Entry(cac), ret, false, func(a ir.Atom) bool {
+					return ir.BoolCallAtom(a, "(*"+pkgModels+".Item).HasWork") != nil
+				})
+				if !notSeed && !noWork {
+					ok, detail = false, "a return skips markCompleted although the seed still has work by its status (a GotChildren/GotRedirected seed whose children were all removed is never completed: the finisher feeds it back for ever)"
 				}
 			}
 		}
